@@ -76,6 +76,15 @@ static std::string run_case(const std::vector<std::string>& w)
         if (a != c) return "S-REPEAT-DIFFERS " + hex(a) + " " + hex(c);
         return "S " + hex(a) + " " + hex(b);
     }
+    if (w.size() == 2 && w[0] == "joind")
+    {
+        // the default infix of both overloads
+        auto l = unwire_strs(w[1]);
+        auto a = nitro::lang::join(l);
+        auto b = nitro::lang::join(l.begin(), l.end());
+        if (a != b) return "S-OVERLOADS-DIFFER " + hex(a) + " " + hex(b);
+        return "S " + hex(a);
+    }
     if (w.size() == 3 && w[0] == "joini")
     {
         // elements that are not strings: rendered through the stringstream inside join
